@@ -57,6 +57,8 @@ def same_value(exp: Any, got: Any) -> bool:
     got: value returned by odxtools."""
     if exp is Ellipsis:
         return True
+    if hasattr(exp, "alts") and hasattr(exp, "ok"):  # refcompu.Accept: set of admissible values
+        return bool(exp.ok(got))
     if isinstance(exp, dict) and set(exp) == {"echo"}:
         b = exp["echo"]
         return got in (b, bytearray(b), int.from_bytes(b, "little"), int.from_bytes(b, "big"))
@@ -103,6 +105,8 @@ def show(v: Any) -> Any:
         return [show(x) for x in v]
     if v is Ellipsis:
         return "..."
+    if hasattr(v, "alts") and hasattr(v, "ok"):
+        return repr(v)
     if isinstance(v, float) and (math.isinf(v) or math.isnan(v)):
         return repr(v)
     return v
